@@ -2,6 +2,7 @@
 from __future__ import annotations
 
 import ast
+import re
 
 from vlib import truthy
 from vlib.cfg import CFG
@@ -323,7 +324,8 @@ def run(repo: Repo, rep: Report) -> None:
         rep.rule("C10.d-unbound-skipped",
                  "_fillTemplate yields a triple only where each of its three instantiated components is known to be not None (identity, not truthiness: a "
                  "falsy literal is a legal term).  Known = a condition that holds whenever the yield is evaluated: an enclosing test, an early exit before it "
-                 "in an enclosing block, or what a predicate helper of the module that was called on the components says about its arguments where it "
+                 "in an enclosing block, the condition whose outcome a tested local keeps (`ok = a is not None and ..` .. `if ok:`, nothing it mentions re-bound on the way), "
+                 "or what a predicate helper of the module that was called on the components says about its arguments where it "
                  "returns true.  The triple is a display of three expressions, or a name that such a call has shown to have three items", floor=1)
         yields = [y for y in own_nodes(ft) if isinstance(y, ast.Yield)]
         if not yields:
@@ -395,16 +397,29 @@ def run(repo: Repo, rep: Report) -> None:
     def rule_f() -> None:
         rep.rule("C10.f-graph-management-order",
                  "in evalAdd/evalMove/evalCopy every feasible path to a mutation has evaluated the source==target test (a comparison of the identifiers of the "
-                 "two graphs) and found the graphs different - whether the test returns at once or its outcome is kept (in a local that is None or not) and "
-                 "tested later; MOVE/COPY clear the target before copying, and MOVE drops the source only after the copy.  Which graph a local stands for "
+                 "two graphs) and found the graphs different - whether the test returns at once, its outcome is kept (in a local that is None or not) and "
+                 "tested later, or it is a property of the record (NamedTuple of the module) that holds the two graphs; MOVE/COPY clear the target before copying, and MOVE drops the source only after the copy.  Which graph a local stands for "
                  "follows the values: it was obtained by a call that is given the source (target) term of the request, or on a branch chosen by a test of "
-                 "that term alone; through copies and tuples that are packed and unpacked", floor=6)
+                 "that term alone; through copies, tuples and records of the module that are packed and unpacked (by position or by field)", floor=6)
+        R = H.Records(up)
+
         for q in ("evalAdd", "evalMove", "evalCopy"):
             f = evaluators.get(q)
             if f is None:
                 raise AnalysisError("%s vanished" % q)
             g = CFG(f)
             tests: dict[int, bool] = {}  # CFG node of an `if` that decides on a comparison of the identifiers -> does its true edge mean `same graph`
+
+            def written_out(v: ast.AST, where: int) -> list[tuple[ast.AST, int]] | None:
+                """`X.a`, X a local that can only hold (at node `where`) constructions of a record of the module: what the attribute stands for in each of them
+                (the argument given for the field, the expression a property returns with the fields written out); any other expression: itself"""
+                if not (isinstance(v, ast.Attribute) and isinstance(v.value, ast.Name)):
+                    return [(v, where)]
+                hv = H.held_values(g, where, v.value.id, items=R.items)
+                if not hv or any(R.construction(c) is None for c, _w in hv):
+                    return [(v, where)]
+                out = [(R.attribute(c, v.attr), w) for c, w in hv]
+                return None if any(e is None for e, _w in out) else out  # type: ignore[return-value]
 
             def same_graph(t: ast.AST, at: int) -> bool | None:
                 """does the truth of condition t (evaluated at node `at`) mean that the identifiers of the two graphs are equal (True) / differ (False)"""
@@ -413,8 +428,13 @@ def run(repo: Repo, rep: Report) -> None:
                     t, pol = t.operand, not pol
                 if isinstance(t, ast.Compare) and len(t.ops) == 1 and isinstance(t.ops[0], (ast.Eq, ast.NotEq)) and ".identifier" in norm(t):
                     return pol == isinstance(t.ops[0], ast.Eq)
+                if isinstance(t, ast.Attribute):  # the outcome of the comparison as a property of the record that holds the two graphs
+                    wo = written_out(t, at)
+                    pols = {same_graph(v, where) for v, where in wo} if wo and not any(v is t for v, _w in wo) else {None}
+                    if len(pols) == 1 and None not in pols:
+                        return pol == pols.pop()
                 if isinstance(t, ast.Name):  # the outcome of the comparison, kept in a local
-                    hv = H.held_values(g, at, t.id)
+                    hv = H.held_values(g, at, t.id, items=R.items)
                     pols = {same_graph(v, where) for v, where in hv} if hv and not any(isinstance(v, ast.Name) for v, _w in hv) else {None}
                     if len(pols) == 1 and None not in pols:
                         return pol == pols.pop()
@@ -466,10 +486,14 @@ def run(repo: Repo, rep: Report) -> None:
                 def roles(e: ast.AST, at: ast.AST) -> set[str]:
                     if not isinstance(e, ast.Name):
                         return {"?"}
-                    hv = H.held_values(g, g.node_of(at, up), e.id, through_augmented=True)
+                    hv = H.held_values(g, g.node_of(at, up), e.id, through_augmented=True, items=R.items)
                     if not hv:
                         return {"?"}
-                    return {value_role(v, where) for v, where in hv}
+                    out: set[str] = set()
+                    for v, where in hv:
+                        wo = written_out(v, where)
+                        out |= {value_role(v2, w2) for v2, w2 in wo} if wo else {"?"}
+                    return out
                 clear_dst = [n for n, k in muts if k == "DEL" and isinstance(n, ast.Call) and roles(n.func.value, n) == {"dst"}]
                 copy = [n for n, k in muts if k == "INS" and isinstance(n, ast.AugAssign) and roles(n.target, n) == {"dst"} and roles(n.value, n) == {"src"}]
                 drop_src = [n for n, k in muts if k == "DEL" and isinstance(n, ast.Call) and (roles(n.func.value, n) == {"src"} or any(roles(a, n) == {"src"} for a in n.args))]
@@ -589,7 +613,7 @@ def active_graph_rule(repo: Repo, rep: Report) -> None:
     up = repo.mod("rdflib.plugins.sparql.update")
     rep.rule("C10.j-with-using-select-active-graph",
              "in evalModify, for each of the four presence combinations of USING and WITH, the query context that is current (the value of the local that holds "
-             "it - whatever that local is called -, followed on every feasible path through copies and tuples that are packed and unpacked; branch feasibility "
+             "it - whatever that local is called, at each of the calls that evaluate WHERE (no path passes two of them) -, followed on every feasible path through copies and tuples that are packed and unpacked; branch feasibility "
              "from the fixed truth of u.using/u.withClause and the exactly tracked one-bit local flags) is: at the "
              "WHERE evaluation - the WITH graph pushed on the caller's context iff WITH and no USING, never the WITH graph when USING is present, the caller's context otherwise "
              "(or the USING scratch default graph); at every statement that selects the graph the templates are applied to (reads the active graph of a context: "
@@ -665,14 +689,17 @@ def active_graph_rule(repo: Repo, rep: Report) -> None:
 
     # sites
     where_sites = [n for n in own_nodes(em) if isinstance(n, ast.Call) and norm(n.func) == "evalPart" and len(n.args) == 2 and norm(n.args[1]) == "%s.where" % uname]
-    if len(where_sites) != 1:
-        raise AnalysisError("evalModify: expected exactly one evalPart(ctx, u.where) call, found %d" % len(where_sites))
-    if not isinstance(where_sites[0].args[0], ast.Name):
-        raise AnalysisError("evalModify: the context handed to evalPart is not a local: %s" % norm(where_sites[0].args[0])[:60])
+    # (one call, or one per branch of the USING / WITH case distinction: each is judged under the presence combinations that can reach it, every
+    # combination must reach one, and no path evaluates WHERE twice)
+    if not where_sites:
+        raise AnalysisError("evalModify: no evalPart(ctx, u.where) call found")
+    for ws in where_sites:
+        if not isinstance(ws.args[0], ast.Name):
+            raise AnalysisError("evalModify: the context handed to evalPart is not a local: %s" % norm(ws.args[0])[:60])
     # helpers of the module that hand out the active graph of the context they are given (`_defaultGraph(ctx)` reads ctx.graph)
     graph_selectors = set()
     for q in up.defs:
-        hf = up.func(q) if up.has(q) else None
+        hf = up.defs.get(q)
         if isinstance(hf, ast.FunctionDef) and hf.args.args:
             hp0 = hf.args.args[0].arg
             if any(isinstance(x, ast.Attribute) and x.attr == "graph" and norm(x.value) == hp0 for x in own_nodes(hf)) and any(isinstance(x, ast.Return) for x in own_nodes(hf)):
@@ -751,13 +778,18 @@ def active_graph_rule(repo: Repo, rep: Report) -> None:
                         add_site(n, r)
     if len(tmpl_sites) < 1:
         raise AnalysisError("evalModify: found no statement selecting the template target from ctx.graph")
-    rep.info["C10.j_sites"] = {"where": norm(where_sites[0]), "template_targets": [norm(s)[:90] for s, _v in tmpl_sites]}
+    rep.info["C10.j_sites"] = {"where": [norm(w) for w in where_sites], "template_targets": [norm(s)[:90] for s, _v in tmpl_sites]}
+    wnodes = [g.node_of(w, up) for w in where_sites]
+    again = [w for w, a in zip(where_sites, wnodes) if any(b in g.reach(a, skip_exc=True) for b in wnodes)]
+    if again or len(where_sites) > 1:
+        rep.ob("C10.j-with-using-select-active-graph", up, "evalModify", "WHERE is evaluated once: %d call(s) of evalPart on u.where" % len(where_sites), not again,
+               "on branches that exclude each other" if not again else
+               "after %s the WHERE pattern can be evaluated again on the same path: the second evaluation sees another state (or another active graph) than the first" % norm(again[0])[:60], node=again[0] if again else where_sites[0])
     for using in (False, True):
         for withc in (False, True):
             assume = {A_USING: using, A_WITH: withc}
             tag = "USING %s, WITH %s" % ("present" if using else "absent", "present" if withc else "absent")
-            wn = g.node_of(where_sites[0], up)
-            cls = sorted(classes(where_sites[0].args[0].id, wn, assume))
+            cls = sorted(set().union(*[classes(w.args[0].id, wn, assume) for w, wn in zip(where_sites, wnodes)]))
             if using:
                 allowed = {"CALLER", "SCRATCH"}
             elif withc:
@@ -766,7 +798,8 @@ def active_graph_rule(repo: Repo, rep: Report) -> None:
                 allowed = {"CALLER"}
             ok = bool(cls) and set(cls) <= allowed
             rep.ob("C10.j-with-using-select-active-graph", up, "evalModify", "[%s] WHERE evaluated in %s" % (tag, "/".join(cls) or "unreachable"), ok,
-                   "as the Update semantics prescribe" if ok else "the context WHERE is evaluated in can be %s; allowed here: %s" % ("/".join(cls), "/".join(sorted(allowed))), node=where_sites[0])
+                   "as the Update semantics prescribe" if ok else "the context WHERE is evaluated in can be %s; allowed here: %s" % ("/".join(cls) or "none: no evaluation of WHERE is reached", "/".join(sorted(allowed))),
+                   node=next((w for w, wn in zip(where_sites, wnodes) if classes(w.args[0].id, wn, assume)), where_sites[0]))
             for s, var in tmpl_sites:
                 sn = g.node_of(s, up)
                 cls = sorted(classes(var, sn, assume))
@@ -956,12 +989,23 @@ def run(repo: Repo, rep: Report) -> None:  # noqa: F811
         rep.rule("C10.n-single-graph-targets-need-no-dataset",
                  "QueryContext.dataset raises when the update runs on a plain Graph. In the keyword dispatchers of the graph-management operations (a parameter compared with "
                  "\"DEFAULT\"/\"ALL\"/...) and in the single-target evaluators that call them (CLEAR, DROP), no read of that property is feasible when the context has no dataset and "
-                 "the target is DEFAULT or ALL (branch feasibility from the fixed truth of `ctx._dataset is None` and of the keyword comparisons, short-circuit operands included): "
+                 "the target is DEFAULT or ALL (branch feasibility from the fixed truth of `ctx.<the attribute behind the property> is None` and of the keyword comparisons, short-circuit operands included): "
                  "DROP DEFAULT, DROP ALL and CLEAR ALL on a plain Graph empty it as CLEAR DEFAULT does", floor=6)
+        # the attribute behind the public property `dataset`: the attribute of self that the property raises for when it is None, and hands out otherwise
         qc = sp.methods("QueryContext").get("dataset")
-        if qc is None or not any(isinstance(r, ast.Raise) and any(isinstance(t, ast.Compare) and norm(t.left).endswith("._dataset") for t, v in H.atoms(H.guard_facts(sp, qc, r)))
-                                 for r in own_nodes(qc)):
-            raise AnalysisError("QueryContext.dataset no longer raises under a test of _dataset: rule C10.n has lost its anchor")
+        backing: set[str] = set()
+        if qc is not None and qc.args.args:
+            me = qc.args.args[0].arg
+            handed = {r.value.attr for r in own_nodes(qc) if isinstance(r, ast.Return) and isinstance(r.value, ast.Attribute) and isinstance(r.value.value, ast.Name) and r.value.value.id == me}
+            for r in own_nodes(qc):
+                if isinstance(r, ast.Raise):
+                    for t, truth in H.facts_at(sp, qc, r):
+                        if isinstance(t, ast.Compare) and len(t.ops) == 1 and isinstance(t.left, ast.Attribute) and isinstance(t.left.value, ast.Name) and t.left.value.id == me \
+                                and isinstance(t.comparators[0], ast.Constant) and t.comparators[0].value is None and isinstance(t.ops[0], (ast.Is, ast.IsNot)) and truth == isinstance(t.ops[0], ast.Is) and t.left.attr in handed:
+                            backing.add(t.left.attr)
+        if len(backing) != 1:
+            raise AnalysisError("QueryContext.dataset no longer raises where the attribute it hands out is None (found %s): rule C10.n has lost its anchor" % sorted(backing))
+        battr = backing.pop()
         dispatchers: dict[str, tuple[str, set[str]]] = {}  # function -> (keyword parameter, keywords compared)
         for q, f in up.functions():
             if "." in q or len(f.args.args) < 2:
@@ -997,7 +1041,7 @@ def run(repo: Repo, rep: Report) -> None:  # noqa: F811
             for r in reads:
                 bad = []
                 for kw in sorted(scope[q]):
-                    env: dict[str, bool | None] = {"%s._dataset is None" % cp: True, "%s._dataset is not None" % cp: False, "%s._dataset" % cp: False}
+                    env: dict[str, bool | None] = {"%s.%s is None" % (cp, battr): True, "%s.%s is not None" % (cp, battr): False, "%s.%s" % (cp, battr): False}
                     for c in own_nodes(f):
                         if isinstance(c, ast.Compare) and len(c.ops) == 1 and isinstance(c.left, ast.Name) and q in dispatchers and c.left.id == dispatchers[q][0]:
                             k = c.comparators[0]
@@ -1009,7 +1053,7 @@ def run(repo: Repo, rep: Report) -> None:  # noqa: F811
                         bad.append(kw)
                 rep.ob("C10.n-single-graph-targets-need-no-dataset", up, q, "%s in `%s`" % (norm(r), norm(_stmt_of(up, r, f))[:70]), not bad,
                        "not reached on a context without a dataset for the targets %s" % sorted(scope[q]) if not bad else
-                       "with the target %s on a plain Graph (ctx._dataset is None) this read of the raising property ctx.dataset is reached: the operation raises "
+                       "with the target %s on a plain Graph (the context has no dataset) this read of the raising property ctx.dataset is reached: the operation raises "
                        "'operating currently on a single graph' instead of emptying the graph" % "/".join(bad), node=r)
 
     # ------------------------------------------------------------------ (o)  F112
@@ -1223,7 +1267,10 @@ def run(repo: Repo, rep: Report) -> None:  # noqa: F811
         rep.rule("C10.r-using-is-a-dataset-clause",
                  "USING / USING NAMED are interpreted by the code that interprets FROM / FROM NAMED: the update evaluator hands `u.using` to QueryContext(datasetClause=...) as evalQuery "
                  "hands the query's clause, and uses it otherwise only as a truth value; QueryContext.load (which fetches a document) is called by the LOAD evaluator only. "
-                 "`DELETE { ?s ?p ?o } USING <g1> WHERE { GRAPH <g2> { ?s ?p ?o } }` must not see <g2>, and <g1> is read from the store, not from the network", floor=7)
+                 "`DELETE { ?s ?p ?o } USING <g1> WHERE { GRAPH <g2> { ?s ?p ?o } }` must not see <g2>, and <g1> is read from the store, not from the network", floor=3)
+        # (floor: one obligation per role - the sibling in evalQuery, the fetch of LOAD, the USING clauses of an evaluator; each role is required below by
+        # itself, however many times the evaluator tests the presence of the clause)
+        n_load = n_using = 0
         eq = ev.func("evalQuery")
         sib = [c for c in own_nodes(eq) if isinstance(c, ast.Call) and norm(c.func) == "QueryContext" and any(k.arg == "datasetClause" for k in c.keywords)]
         if not sib:
@@ -1233,6 +1280,7 @@ def run(repo: Repo, rep: Report) -> None:  # noqa: F811
             for c in own_nodes(f):
                 if isinstance(c, ast.Call) and isinstance(c.func, ast.Attribute) and c.func.attr == "load" and ctx_typed(up, c.func.value, f):
                     ok = op_of.get(q) == "Load"
+                    n_load += 1
                     rep.ob("C10.r-using-is-a-dataset-clause", up, q, c, ok, "LOAD" if ok else
                            "%s fetches a document into the context: only LOAD reads from outside the store; a dataset clause selects among the graphs the store has" % q, node=c)
             if len(f.args.args) < 2:
@@ -1240,6 +1288,7 @@ def run(repo: Repo, rep: Report) -> None:  # noqa: F811
             un = f.args.args[1].arg
             uses = [n for n in own_nodes(f) if isinstance(n, ast.Attribute) and n.attr == "using" and isinstance(n.value, ast.Name) and n.value.id == un]
             handed = 0
+            n_using += len(uses)
             for n in uses:
                 child: ast.AST = n
                 kind = None
@@ -1262,21 +1311,30 @@ def run(repo: Repo, rep: Report) -> None:  # noqa: F811
             if uses and not handed:
                 rep.ob("C10.r-using-is-a-dataset-clause", up, q, "QueryContext(..., datasetClause=%s.using)" % un, False,
                        "the USING clauses never reach QueryContext as a dataset clause", node=f)
+        if not n_load:
+            raise AnalysisError("update.py: no evaluator fetches a document through the load method of its context (LOAD): rule C10.r has lost its anchor")
+        if not n_using:
+            raise AnalysisError("update.py: no evaluator reads the USING clauses of its request: rule C10.r has lost its anchor")
 
     # ------------------------------------------------------------------ (s)  F117
     def rule_s() -> None:
         rep.rule("C10.s-where-processed-like-a-query-pattern",
                  "every algebra pass translateQuery applies (functions handed to traverse / _traverse / _traverseAgg) is also applied to the update: to the whole operation in "
-                 "translateUpdate or to the WHERE pattern in translateUpdate1. Without `simplify` / `analyse` / `_addVars` a Join with the empty BGP stays and no join is lazy, so in "
+                 "translateUpdate or to the WHERE pattern in translateUpdate1 (the pattern handed to the traversal is computed from the `where` of the request, directly or through locals). Without `simplify` / `analyse` / `_addVars` a Join with the empty BGP stays and no join is lazy, so in "
                  "`INSERT { ... } WHERE { GRAPH ?g { ?s ?p ?o OPTIONAL { ... } } }` the inner pattern is not evaluated in ?g for every solution", floor=4)
+
+        def reads_where(x: ast.AST) -> bool:
+            return (isinstance(x, ast.Attribute) and x.attr == "where") or (isinstance(x, ast.Subscript) and isinstance(x.slice, ast.Constant) and x.slice.value == "where")
 
         def passes(fn: ast.FunctionDef, only_where: bool = False) -> dict[str, ast.Call]:
             out: dict[str, ast.Call] = {}
+            g = CFG(fn) if only_where else None
             for c in own_nodes(fn):
                 if not (isinstance(c, ast.Call) and isinstance(c.func, ast.Name) and c.func.id in _TRAVERSERS and c.args):
                     continue
-                if only_where and not any((isinstance(x, ast.Attribute) and x.attr == "where") or (isinstance(x, ast.Subscript) and isinstance(x.slice, ast.Constant) and x.slice.value == "where")
-                                          for x in ast.walk(c.args[0])):
+                # the pattern traversed is the WHERE pattern: the argument reads the `where` of the request - itself, or through the locals it mentions,
+                # each of which can only hold (at the call) a value computed from such a read
+                if only_where and not H.computed_from(g, alg, c.args[0], g.node_of(c, alg), reads_where):
                     continue
                 for v in list(c.args[1:]) + [k.value for k in c.keywords]:
                     if isinstance(v, ast.Call) and norm(v.func).endswith("partial") and v.args:
@@ -1484,7 +1542,12 @@ def run(repo: Repo, rep: Report) -> None:  # noqa: F811
                     tf = T.type_of(mn, n.value)
                     if tf is None or (not tf.items and not tf.optional):
                         continue  # no static type (Any): nothing to compare
-                    bad = [it for it in tf.items if not T.is_subclass(it, want)]
+                    items = list(tf.items)
+                    # (the static type of an instance of a NamedTuple class is a tuple type that carries the class as its fallback: the class is that one)
+                    nt = re.search(r"^tuple\[.*, fallback=([\w.]+)\]$", tf.text or "")
+                    if nt and items == ["builtins.tuple"] and nt.group(1) in T.classes:
+                        items = [nt.group(1)]
+                    bad = [it for it in items if not T.is_subclass(it, want)]
                     ok = not bad and not tf.optional
                     if q == "translateUpdate":
                         n_tu += 1
@@ -1529,7 +1592,7 @@ def run(repo: Repo, rep: Report) -> None:  # noqa: F811
     def rule_x() -> None:
         rep.rule("C10.x-update-context-never-fetches",
                  "QueryContext.__init__ fetches documents for FROM / FROM NAMED graphs the dataset lacks: it reaches, through calls of methods of the class on self (directly or "
-                 "through further such methods), a method that parses a source. Every context an update evaluator constructs must make each such chain of calls infeasible through "
+                 "through further such methods), a method that parses a source (itself, or in a plain function of the module it mentions). Every context an update evaluator constructs must make each such chain of calls infeasible through "
                  "the constant arguments of the construction (a parameter bound to a literal, or left to its literal default, decides the branch tests that mention it; a method "
                  "called with a parameter that the caller never re-binds inherits what is known of it): USING <g> selects among the graphs of the store, a missing one is empty. Otherwise "
                  "`DELETE { ?s ?p ?o } USING <http://example.org/doc> WHERE { ?s ?p ?o }` dereferences the IRI: a document outside the store decides what is deleted, or the operation "
@@ -1538,7 +1601,20 @@ def run(repo: Repo, rep: Report) -> None:  # noqa: F811
         init = qmeths.get("__init__")
         if init is None:
             raise AnalysisError("QueryContext.__init__ vanished")
-        parsers = {m for m, f in qmeths.items() if any(isinstance(c, ast.Call) and isinstance(c.func, ast.Attribute) and c.func.attr == "parse" for c in own_nodes(f, include_nested=True))}
+        # what parses a source: a `.parse(...)` call in the method itself (nested functions included), or in a plain function of the module that the
+        # method mentions (calls, or binds with functools.partial), directly or through further such functions
+        def parses(fn: ast.AST) -> bool:
+            return any(isinstance(c, ast.Call) and isinstance(c.func, ast.Attribute) and c.func.attr == "parse" for c in own_nodes(fn, include_nested=True))
+        mod_fns = {q: fn for q, fn in sp.functions() if "." not in q}
+        mod_parsers = {q for q, fn in mod_fns.items() if parses(fn)}
+        grown = True
+        while grown:
+            grown = False
+            for q, fn in mod_fns.items():
+                if q not in mod_parsers and any(isinstance(n, ast.Name) and isinstance(n.ctx, ast.Load) and n.id in mod_parsers for n in own_nodes(fn, include_nested=True)):
+                    mod_parsers.add(q)
+                    grown = True
+        parsers = {m for m, f in qmeths.items() if parses(f) or any(isinstance(n, ast.Name) and isinstance(n.ctx, ast.Load) and n.id in mod_parsers for n in own_nodes(f, include_nested=True))}
         if not parsers:
             raise AnalysisError("QueryContext: no method parses a source any more: rule C10.x has lost its anchor")
         fetchers = H.reaching_methods(qmeths, parsers)
